@@ -60,7 +60,10 @@ class State:
         self.ghost = {}
         self.yielded = None         # SeqV term for generators
         self.trail = []             # branch decisions, for reporting
+        self.origin = None          # callee whose contract is being applied (writes made on its behalf)
         self._wf_seen = set()
+        self._pc_ids = set()
+        self.old_ids = set()        # ids of terms that denote objects of the initial heap (parameters)
         self.univ = []              # lazy universals: callables(index term) -> z3 Bool, instantiated at the index terms of this path
         self.idx = []               # index terms (skolems of goals, witnesses of assumed existentials)
 
@@ -78,6 +81,9 @@ class State:
         n.yielded = self.yielded
         n.trail = list(self.trail)
         n._wf_seen = set(self._wf_seen)
+        n._pc_ids = set(self._pc_ids)
+        n.origin = self.origin
+        n.old_ids = self.old_ids
         n.univ = list(self.univ)
         n.idx = list(self.idx)
         return n
@@ -129,7 +135,7 @@ class State:
 
     def read(self, name, ref, sort=None):
         a = self.comp(name, sort)
-        t = select_store(a, ref)
+        t = select_store(a, ref, self.old_ids)
         self.base_wf(a, ref)
         return t
 
@@ -153,7 +159,7 @@ class State:
 
     def write(self, name, ref, value, sort=None):
         self.H[name] = z3.Store(self.comp(name, sort), ref, value)
-        self.writes.append((name, ref))
+        self.writes.append((name, ref, self.origin))
 
     def havoc_at(self, name, ref, sort=None):
         s = sort if sort is not None else self.comp(name, sort).sort().range()
@@ -164,7 +170,7 @@ class State:
     def havoc_comp(self, name, sort=None):
         a = self.comp(name, sort)
         self.H[name] = fresh("Hh." + name, a.sort())
-        self.writes.append((name, None))
+        self.writes.append((name, None, self.origin))
 
     def alloc_ptr(self):
         return self.alloc_base + self.alloc_off
@@ -183,11 +189,23 @@ class State:
 
     def assume(self, c):
         if isinstance(c, bool):
+            if c:
+                return
             c = z3.BoolVal(c)
+        if z3.is_true(c):
+            return
+        k = c.get_id()
+        if k in self._pc_ids:
+            return
+        self._pc_ids.add(k)
         self.pc.append(c)
 
     def wf_ref(self, t):
         """well-formed heap: any reference read from the heap or passed in is below the allocation pointer"""
+        k = ("wf", t.get_id())
+        if k in self._wf_seen:
+            return
+        self._wf_seen.add(k)
         self.pc.append(z3.And(t >= 0, t < self.alloc_ptr()))
 
     # ---- lists ----------------------------------------------------------------------------------------------------
@@ -223,13 +241,55 @@ def _distinct_syntactically(i, j):
     return bi.eq(bj) and oi != oj
 
 
-def select_store(a, i):
-    """Select(a, i) with reads through Store chains resolved when the indices are syntactically equal / certainly distinct"""
+def is_fresh_ref(t):
+    """t is syntactically an allocation made by the function under verification: ALLOC0 + k or a later allocation base + k"""
+    if z3.is_add(t) and t.num_args() == 2:
+        a, b = t.arg(0), t.arg(1)
+        if z3.is_int_value(a):
+            a, b = b, a
+        if z3.is_int_value(b) and b.as_long() >= 0:
+            t = a
+        else:
+            return False
+    return z3.is_const(t) and (t.decl().name() == "ALLOC0" or t.decl().name().startswith("ALLOC!"))
+
+
+def is_old_ref(t, old_ids, depth=0):
+    """t certainly denotes an object of the initial heap: a parameter, or a reference read from an initial heap component at an old ref"""
+    if depth > 8 or not z3.is_app(t):
+        return False
+    if t.get_id() in old_ids:
+        return True
+    d = t.decl()
+    if d.name() == "r" and t.num_args() == 1:
+        x = t.arg(0)
+        if x.get_id() in old_ids:
+            return True
+        if z3.is_app(x) and x.decl().kind() == z3.Z3_OP_SELECT:
+            base = x.arg(0)
+            if z3.is_const(base) and base.decl().name().startswith("H0."):
+                return is_old_ref(x.arg(1), old_ids, depth + 1)
+    return False
+
+
+def select_store(a, i, old_ids=frozenset()):
+    """Select(a, i) with reads through Store chains resolved when the indices are syntactically equal / certainly distinct
+    (distinct numerals / offsets, or an object of the initial heap against an allocation of this call)"""
+    i_old = None
     while z3.is_app(a) and a.decl().kind() == z3.Z3_OP_STORE:
         j = a.arg(1)
         if j.eq(i):
             return a.arg(2)
         if _distinct_syntactically(i, j):
+            a = a.arg(0)
+            continue
+        if is_fresh_ref(j) and not is_fresh_ref(i):
+            if i_old is None:
+                i_old = is_old_ref(i, old_ids)
+            if i_old:
+                a = a.arg(0)
+                continue
+        if is_fresh_ref(i) and not is_fresh_ref(j) and is_old_ref(j, old_ids):
             a = a.arg(0)
             continue
         break
